@@ -75,3 +75,7 @@ def run(check):
     from ..rules_escape import rule_user_value_operations, rule_sphinx_hook_total
     check.run_rule('C07.R14', lambda c: rule_user_value_operations(c, 'C07.R14'))
     check.run_rule('C07.R15', lambda c: rule_sphinx_hook_total(c, 'C07.R15'))
+    # "every non-colliding call accepted by the result is accepted by the function's own def": what discovery embeds must not replace the
+    # function's own parameter by a callee's of the same name -- embed's duplicate-name rejection (shared with C02.R3)
+    from ..rules_embed import EmbedModel, rule_embed_dupes
+    check.run_rule('C07.R16', lambda c: rule_embed_dupes(c, EmbedModel(c.repo), 'C07.R16'))
